@@ -157,7 +157,9 @@ def _run_one(job):
         except AnalysisError:
             return "killed-analysis-error"
         keys = set(f.key for f in ctx.findings)
-        return "killed" if keys - set(baseline_keys) else "survived"
+        if keys - set(baseline_keys):
+            return "killed"
+        return "survived-as-equivalent" if _report.get("substituted") else "survived"
     except Exception as e:       # an internal error on a mutant is reported, not hidden
         return "killed-internal:%s" % type(e).__name__
 
@@ -215,8 +217,9 @@ def run_audit(pid, mod, ctx, seed, max_mutants=None, procs=None):
             killed += 1
             d["killed"] += 1
         else:
-            survivors.append({"function": qn, "operator": op, "mutation": desc})
-    return {"sites_found": total_sites, "applied": applied, "killed": killed, "kill_ratio": round(killed / applied, 3) if applied else None,
-            "by_operator": byop, "survivors_sample": survivors[:40], "n_survivors": len(survivors), "wall_s": round(time.time() - t0, 1),
+            survivors.append({"function": qn, "operator": op, "mutation": desc, "judged_equivalent_to_reference": r == "survived-as-equivalent"})
+    n_equiv = sum(1 for s_ in survivors if s_["judged_equivalent_to_reference"])
+    return {"judged_equivalent": n_equiv, "sites_found": total_sites, "applied": applied, "killed": killed, "kill_ratio": round(killed / applied, 3) if applied else None,
+            "by_operator": byop, "survivors_sample": ([s_ for s_ in survivors if s_["judged_equivalent_to_reference"]][:25] + [s_ for s_ in survivors if not s_["judged_equivalent_to_reference"]][:25]), "n_survivors": len(survivors), "wall_s": round(time.time() - t0, 1),
             "note": "mutants are applied in memory to the current /repo sources (overlay), one at a time; killed = the property's rules report a new "
                     "finding or an analysis error; survivors are weaknesses of the checker or equivalent/irrelevant mutants, not violations"}
